@@ -125,10 +125,16 @@ def mem_call(ctx: Ctx) -> None:
     # create-arrays op includes reserved memory
     cz = repo.get(f"{A.PLAN}.create_zarr_arrays")
     ok = False
-    for n in cz.own_nodes():
-        if isinstance(n, ast.Assign) and isinstance(n.targets[0], ast.Name) and n.targets[0].id == "projected_mem":
-            v = n.value
-            ok = isinstance(v, ast.BinOp) and isinstance(v.op, ast.Add) and any(isinstance(x, ast.Name) and x.id == "reserved_mem" for x in (v.left, v.right))
+    cfl, ccfg = flow_of(repo, cz), cfg_of(cz)
+    ctx.need("reserved_mem" in cz.params, "create_zarr_arrays lost its reserved_mem parameter")
+    for p_ in repo.calls_to(cz, f"{A.PTYPES}.PrimitiveOperation"):
+        v = kwarg(p_, "projected_mem")
+        if v is None:
+            continue
+        if isinstance(v, ast.Name):
+            ds = cfl.rdefs(v.id, ccfg.node_of(p_))
+            v = ds[0].value if len(ds) == 1 and ds[0].kind == "assign" else v
+        ok = isinstance(v, ast.BinOp) and isinstance(v.op, ast.Add) and any(isinstance(x, ast.Name) and x.id == "reserved_mem" for x in (v.left, v.right))
     ctx.ob(cz, None, ok, "the create-arrays operation's projection includes reserved_mem", sel="call:create-arrays")
 
 
